@@ -395,6 +395,11 @@ def _main_run(mod, pid, args, seed):
             # a fixed finding is replayed with the known-finding exclusions active, so that only
             # the repaired root cause is looked at; a known finding with all of them off
             data, out, hits = run_replay(mod, rp, active_known if e.get("status") == "fixed" else ())
+            # a known finding whose manifestation depends on something rope leaves to chance (entry field "attempts")
+            for _ in range(int(e.get("attempts", 1)) - 1):
+                if hits or e.get("status") != "known":
+                    break
+                data, out, hits = run_replay(mod, rp, ())
         except Exception:
             traceback.print_exc()
             print("harness error: replay of %s crashed (the campaign still runs)" % e.get("id"))
